@@ -441,3 +441,134 @@ fn c05_classify_twin_must_fail() {
     assert!(!matches!(&msgs[0], Message::Update(Update::Reach { .. })));
     core::mem::forget(msgs);
 }
+
+// ---------------------------------------------------------------------------------
+// C03 / C05 / C17: Attribute::decode - structural invariants of accepted attributes
+// ---------------------------------------------------------------------------------
+
+/// independent structural check of a canonical (4-octet) AS_PATH value, written from RFC 4271
+fn as_path_well_formed(b: &[u8]) -> bool {
+    let mut pos = 0usize;
+    // at most len/2 segments
+    let mut guard = 0;
+    while pos < b.len() {
+        if guard > b.len() {
+            return false;
+        }
+        guard += 1;
+        if pos + 2 > b.len() {
+            return false;
+        }
+        let t = b[pos];
+        let c = b[pos + 1] as usize;
+        if t < 1 || t > 4 {
+            return false;
+        }
+        pos += 2 + 4 * c;
+        if pos > b.len() {
+            return false;
+        }
+    }
+    true
+}
+
+fn decode_as_path4<const N: usize>() {
+    let bytes: [u8; N] = kani::any();
+    let flags = Attribute::FLAG_TRANSITIVE;
+    let mut rd: &[u8] = &bytes[..];
+    let r = Attribute::decode(Attribute::AS_PATH, flags, &mut rd, N as u16, false);
+    let ok = as_path_well_formed(&bytes[..]);
+    match r {
+        Ok(a) => {
+            // accepted => well-formed per RFC 4271 (every segment type in 1..=4, lengths add up)
+            assert!(ok);
+            assert!(a.code() == Attribute::AS_PATH);
+            // ... so the consumers of the stored value cannot crash on it
+            let hops = a.as_path_length();
+            assert!(hops <= N);
+            kani::cover!(hops == 0);
+            kani::cover!(hops >= 1);
+            core::mem::forget(a);
+        }
+        Err(()) => {
+            // rejected => recorded as an attribute error (treat-as-withdraw), never believed
+            assert!(!ok);
+        }
+    }
+}
+
+//@ id=C05 tier=quick cap=900
+//@ fn: bgp::Attribute::decode (AS_PATH arm, 4-octet AS session), bgp::Attribute::as_path_length
+//@ bound: ALL 6-byte AS_PATH values; unwind 9
+//@ desc: decode accepts exactly the RFC 4271 well-formed values (segment type 1..=4, counts consistent with the length; count 0 allowed) - a malformed AS_PATH is always reported as an attribute error; accepted values cannot crash hop counting (best-path selection)
+#[kani::proof]
+#[kani::unwind(9)]
+fn c05_attr_decode_aspath_6() {
+    decode_as_path4::<6>();
+}
+
+//@ id=C05 tier=thorough cap=1500
+//@ fn: bgp::Attribute::decode (AS_PATH arm, 4-octet AS session) and consumers
+//@ bound: ALL 10-byte AS_PATH values; unwind 13
+//@ desc: as c05_attr_decode_aspath_6 (two segments possible)
+#[kani::proof]
+#[kani::unwind(13)]
+fn c05_attr_decode_aspath_10() {
+    decode_as_path4::<10>();
+}
+
+//@ id=C05 tier=quick cap=900
+//@ fn: bgp::Attribute::decode (ORIGIN, MED, LOCAL_PREF, ORIGINATOR_ID, ATOMIC_AGGREGATE, AGGREGATOR, COMMUNITY, EXTENDED_COMMUNITY, LARGE_COMMUNITY, CLUSTER_LIST, AS4_AGGREGATOR arms)
+//@ bound: attribute code symbolic among the fixed-length / multiple-of-N kinds, declared length symbolic 0..=12, 12 symbolic value bytes; unwind 14
+//@ desc: an attribute whose length (or ORIGIN value) violates its RFC is rejected (=> recorded as error); accepted ones carry exactly `len` bytes / the decoded value
+#[kani::proof]
+#[kani::unwind(14)]
+fn c05_attr_decode_fixed_kinds() {
+    let bytes: [u8; 12] = kani::any();
+    let len: u16 = kani::any();
+    kani::assume(len <= 12);
+    let k: u8 = kani::any();
+    kani::assume(k < 11);
+    let code = match k {
+        0 => Attribute::ORIGIN,
+        1 => Attribute::MULTI_EXIT_DESC,
+        2 => Attribute::LOCAL_PREF,
+        3 => Attribute::ORIGINATOR_ID,
+        4 => Attribute::ATOMIC_AGGREGATE,
+        5 => Attribute::AGGREGATOR,
+        6 => Attribute::COMMUNITY,
+        7 => Attribute::EXTENDED_COMMUNITY,
+        8 => Attribute::LARGE_COMMUNITY,
+        9 => Attribute::CLUSTER_LIST,
+        _ => Attribute::AS4_AGGREGATOR,
+    };
+    let mut rd: &[u8] = &bytes[..len as usize];
+    let r = Attribute::decode(code, Attribute::canonical_flags(code).unwrap(), &mut rd, len, false);
+    let len_ok = match k {
+        0 => len == 1 && bytes[0] <= 2,
+        1 | 2 | 3 => len == 4,
+        4 => len == 0,
+        5 => len == 6 || len == 8,
+        6 | 9 => len % 4 == 0,
+        7 => len % 8 == 0,
+        8 => len % 12 == 0,
+        _ => len == 8,
+    };
+    match r {
+        Ok(a) => {
+            assert!(len_ok);
+            match k {
+                0 => assert!(a.value() == Some(bytes[0] as u32)),
+                1 | 2 | 3 => assert!(
+                    a.value() == Some(u32::from_be_bytes([bytes[0], bytes[1], bytes[2], bytes[3]]))
+                ),
+                5 => assert!(a.binary().unwrap().len() == 8),
+                _ => assert!(a.binary().unwrap().len() == len as usize),
+            }
+            kani::cover!(k == 0);
+            kani::cover!(k == 8 && len == 12);
+            core::mem::forget(a);
+        }
+        Err(()) => assert!(!len_ok),
+    }
+}
